@@ -90,7 +90,22 @@ theorem gen_windowMult_safe (p : WIn) : Gen.windowMult_safe p = true := by
      simp only [any_ne_and_eq, any_ne_and_eq', Bool.false_eq_true, if_false, firstHit_const]
      first
      | rfl
-     | (simp only [apply_ite (Sum.elim _ _), Sum.elim_inr, Sum.elim_inl, ite_self])
+     | (simp only [apply_ite (Sum.elim _ _), Sum.elim_inr, Sum.elim_inl, ite_self]; done)
+     | grind (splits := 40))
+  | (-- the search written as a general loop: safe for every list, since a zero divisor is skipped before it is used
+     have hl : ∀ (dv l : List (Int × Bool)), Gen.windowMult_safe_loop0 p dv l = true := by
+       intro dv l
+       induction l with
+       | nil => unfold Gen.windowMult_safe_loop0; rfl
+       | cons a t ih =>
+         unfold Gen.windowMult_safe_loop0
+         simp only [ih]
+         grind (splits := 40)
+     unfold Gen.windowMult_safe
+     simp only [hl]
+     first
+     | rfl
+     | (simp only [apply_ite (Sum.elim _ _), Sum.elim_inr, Sum.elim_inl, ite_self]; done)
      | grind (splits := 40))
 
 /-- **`tcp_signatures_match` never divides by zero** on a signature whose `%n` window has a non-zero modulus (what
